@@ -413,4 +413,55 @@ VARIANTS = [
             '        return next(iter(cls), None)\n'
             '\n'
             "    # Give a special repr() that'll eval in a REPL.\n"},
+
+    # audit round (D53-D55): anchored on the FIXED text, inapplicable until the fixes are committed
+    {'name': 'R11 D53 re-introduced: date encode truncates the float product again',
+     'file': 'hippolyzer/lib/base/templates.py',
+     'expect': 'C09.R11',
+     'old': '        secs = round(when.replace(microsecond=0).timestamp())\n'
+            '        return secs * self._multiplier + when.microsecond * self._multiplier // 1_000_000\n',
+     'new': '        return int(when.timestamp() * self._multiplier)\n'},
+    {'name': 'P R11 integer date arithmetic with renamed locals',
+     'file': 'hippolyzer/lib/base/templates.py',
+     'expect': 'silent',
+     'old': '        secs = round(when.replace(microsecond=0).timestamp())\n'
+            '        return secs * self._multiplier + when.microsecond * self._multiplier // 1_000_000\n',
+     'new': '        whole = round(when.replace(microsecond=0).timestamp())\n'
+            '        ticks = when.microsecond * self._multiplier // 1_000_000\n'
+            '        return whole * self._multiplier + ticks\n'},
+    {'name': 'R12 D54 re-introduced: out-of-range stamps raise again',
+     'file': 'hippolyzer/lib/base/templates.py',
+     'expect': 'C09.R12',
+     'old': '        try:\n'
+            '            when = datetime.datetime.fromtimestamp(secs)\n'
+            '        except (ValueError, OverflowError, OSError):\n'
+            '            # Further out than `datetime` reaches. Same convention as the enum\n'
+            "            # adapters, what can't be prettified stays a plain number.\n"
+            '            return val\n',
+     'new': '        when = datetime.datetime.fromtimestamp(secs)\n'},
+    {'name': 'R12 date encode no longer takes the bare number back',
+     'file': 'hippolyzer/lib/base/templates.py',
+     'expect': 'C09.R12',
+     'old': '        if isinstance(val, int):\n'
+            '            return val\n'
+            '        when = datetime.datetime.fromisoformat(val)\n',
+     'new': '        when = datetime.datetime.fromisoformat(val)\n'},
+    {'name': 'P R12 out-of-range fall-back catching Exception',
+     'file': 'hippolyzer/lib/base/templates.py',
+     'expect': 'silent',
+     'old': '        except (ValueError, OverflowError, OSError):\n',
+     'new': '        except Exception:\n'},
+    {'name': 'R13 D55 re-introduced: empty body still gets a terminator',
+     'file': 'hippolyzer/lib/base/serialization.py',
+     'expect': 'C09.R13',
+     'old': '            body = BufferWriter(writer.endianness)\n'
+            '            body.write(self._spec, val, ctx=ctx)\n'
+            '            if not body.buffer:\n'
+            '                return\n',
+     'new': ''},
+    {'name': 'P R13 emptiness of the body tested with len()',
+     'file': 'hippolyzer/lib/base/serialization.py',
+     'expect': 'silent',
+     'old': '            if not body.buffer:\n                return\n',
+     'new': '            if len(body.buffer) == 0:\n                return\n'},
 ]
